@@ -30,7 +30,13 @@ Record case := mk_case {
      First / Take / Last into a destination carrying the key: found 1, 0 = ErrRecordNotFound,
      2 = another row or another error *)
   c_ck : list (Z * Z * Z);
-  o_ckprobes : list ((Z * (Z * Z)) * (Z * Z))
+  o_ckprobes : list ((Z * (Z * Z)) * (Z * Z));
+  (* one inline primary key given to First / Take / Last / Find (chains without limit / offset) *)
+  c_inl : Z; o_inl : list (option row); o_inlfind : list row;
+  (* Count, then Limit(2).Find continued from its result on a reusable handle; the page without Count *)
+  o_cpage : list row; o_page : list row; o_cpage_n : Z;
+  (* sibling chains of a reusable parent carrying three tie orderings: + Order(id), + Order(id desc) *)
+  o_sibasc : list row; o_sibdesc : list row
 }.
 
 Definition has_lops (c : case) := match c_lops c with [] => false | _ => true end.
@@ -135,5 +141,51 @@ Definition extra_spec_holds (c : case) : bool :=
    ((o_selcount c =? o_selfind c) && (o_selcount c =? o_selmaps c) && (o_selfind c =? Z.of_nat (length (o_find c)))))
   && forallb (probe_ok (c_ck c)) (o_ckprobes c).
 
+(* ---- inline key, pagination after Count, sibling orderings ---- *)
+Definition inl_set (c : case) : list row := matches (with_key (c_cond c) (c_inl c)) (c_tbl c).
+Definition inl_checked (c : case) : bool :=
+  negb (has_lops c) && match c_ord c with OrdNone => true | _ => false end.
+Definition page_of (c : case) : list row :=
+  find (c_tbl c) (c_cond c) (c_ord c) (st_of (apply_lops (c_lops c ++ [OLimit 2]))).
+Definition more_model_agrees (c : case) : bool :=
+  let st := st_of (apply_lops (c_lops c)) in
+  (negb (inl_checked c) ||
+   match o_inl c with
+   | [f; t; l] => orow_eqb f (hd_error (inl_set c)) && orow_eqb t (hd_error (inl_set c))
+                  && orow_eqb l (hd_error (rev (inl_set c)))
+   | _ => false
+   end && rows_eqb (o_inlfind c) (inl_set c))
+  && rows_eqb (o_page c) (page_of c) && rows_eqb (o_cpage c) (page_of c)
+  && (match c_ord c with
+      | OrdNone => rows_eqb (o_sibasc c) (find (c_tbl c) (c_cond c) OrdIdAsc st)
+                   && rows_eqb (o_sibdesc c) (find (c_tbl c) (c_cond c) OrdIdDesc st)
+      | _ => true
+      end).
+(* the property: an inline key is one more condition of the chain (combined like a Where call, C02):
+   First / Last return the matching rows with the lowest / highest key, Take one of them, all three
+   ErrRecordNotFound exactly when none matches, Find all of them; a page read after Count is the page
+   read without it and Count is the number of rows without limit; siblings read in their own order *)
+Definition more_spec_holds (c : case) : bool :=
+  (negb (inl_checked c) ||
+   match o_inl c with
+   | [f; t; l] => is_min_of f (inl_set c) && is_max_of l (inl_set c)
+                  && match t, inl_set c with
+                     | None, [] => true
+                     | Some x, _ :: _ => existsb (fun y => (fst x =? fst y) && (snd x =? snd y)) (inl_set c)
+                     | _, _ => false
+                     end
+   | _ => false
+   end && rows_eqb (o_inlfind c) (inl_set c))
+  && rows_eqb (o_cpage c) (o_page c)
+  && (has_lops c || (o_cpage_n c =? Z.of_nat (length (o_find c))))
+  && (match c_ord c with
+      | OrdNone => has_lops c ||
+                   (rows_eqb (o_sibdesc c) (rev (o_sibasc c))
+                    && strictly_inc (map fst (o_sibasc c))
+                    && (o_find_ra c =? Z.of_nat (length (o_sibasc c))))
+      | _ => true
+      end).
+
 Definition check_case (c : case) : N :=
-  code_of (model_agrees c && extra_model_agrees c) (spec_holds c && extra_spec_holds c).
+  code_of (model_agrees c && extra_model_agrees c && more_model_agrees c)
+          (spec_holds c && extra_spec_holds c && more_spec_holds c).
